@@ -45,6 +45,7 @@ func init() {
 	}, run: runRunnerCase})
 	register("exprs", family{gen: genExprCase, run: runRunnerCase})
 	register("cmdargs", family{gen: genCmdArgsCase, run: runRunnerCase})
+	register("concurrent", family{gen: genConcurrent, run: runConcurrent})
 	layCfg := flowCfg
 	layCfg.faultPct = 0
 	register("layout", family{gen: func(r *rand.Rand, tier string) *sx.Node {
@@ -573,4 +574,46 @@ func runLayouts(c *sx.Node) *sx.Node {
 	}
 	n, _ := sx.Parse(base)
 	return n
+}
+
+// genConcurrent: K independent runner cases to be created and driven from K goroutines at once (C18).
+func genConcurrent(r *rand.Rand, tier string) *sx.Node {
+	k := []int{2, 4, 8, 16}[r.Intn(4)]
+	if tier == "thorough" && r.Intn(3) == 0 {
+		k = 32
+	}
+	cfg := flowCfg
+	cfg.randomFns, cfg.waitCmd, cfg.wStop = true, false, 0
+	cases := []*sx.Node{}
+	for i := 0; i < k; i++ {
+		c := genRunnerCase(rand.New(rand.NewSource(r.Int63())), cfg, opsCfg{steps: 16, extraAfterEnd: 1})
+		cases = append(cases, c)
+	}
+	return sx.Tag("concurrent", cases...)
+}
+
+// runConcurrent: every goroutine parses its own script, creates its own runner and drives it; all
+// start together. Each result must be what the case gives when it runs alone.
+func runConcurrent(c *sx.Node) *sx.Node {
+	cases := c.Args()
+	results := make([]*sx.Node, len(cases))
+	start := make(chan struct{})
+	done := make(chan int, len(cases))
+	for i := range cases {
+		go func(i int) {
+			defer func() {
+				if r := recover(); r != nil {
+					results[i] = sx.Tag("panic")
+				}
+				done <- i
+			}()
+			<-start
+			results[i] = runRunnerCase(cases[i])
+		}(i)
+	}
+	close(start)
+	for range cases {
+		<-done
+	}
+	return sx.Tag("all", results...)
 }
